@@ -464,3 +464,390 @@ Proof.
   assert (H := lex3_print3_gen t Hw Hl [] I (fun _ => I)).
   rewrite !app_nil_r in H. exact H.
 Qed.
+
+(* ---------------------------------------------------------------------------------------------- *)
+(* the Excellent3 parser: unfolding equations and fuel monotonicity *)
+
+Lemma pexpr3_S : forall f p ts,
+  pexpr3 (S f) p ts =
+  match pprim3 f ts with
+  | Some (l, r) => ploop3 f p l r
+  | None => None
+  end.
+Proof. reflexivity. Qed.
+
+Lemma pprim3_S : forall f ts,
+  pprim3 (S f) ts =
+  match ts with
+  | TOp OSub :: r =>
+      match pexpr3 f neg_prec r with
+      | Some (e, r') => Some (X3Neg e, r')
+      | None => None
+      end
+  | TText raw :: r => Some (X3Text raw, r)
+  | TInt raw :: r => Some (X3Num raw, r)
+  | TDec raw :: r => Some (X3Num raw, r)
+  | TTrue :: r => Some (X3True, r)
+  | TFalse :: r => Some (X3False, r)
+  | TNull :: r => Some (X3Null, r)
+  | TName n :: r => psuffix3 f (X3Ref n) r
+  | TLParen :: r =>
+      match pexpr3 f O r with
+      | Some (e, TRParen :: r') => psuffix3 f (X3Paren e) r'
+      | _ => None
+      end
+  | _ => None
+  end.
+Proof. reflexivity. Qed.
+
+Lemma psuffix3_S : forall f a ts,
+  psuffix3 (S f) a ts =
+  match ts with
+  | TLParen :: TRParen :: r => psuffix3 f (X3Call a []) r
+  | TLParen :: r =>
+      match pargs3 f r with
+      | Some (args, r') => psuffix3 f (X3Call a args) r'
+      | None => None
+      end
+  | TDot :: TName n :: r => psuffix3 f (X3Dot a n) r
+  | TDot :: TInt n :: r => psuffix3 f (X3Dot a n) r
+  | TLBrack :: r =>
+      match pexpr3 f O r with
+      | Some (i, TRBrack :: r') => psuffix3 f (X3Index a i) r'
+      | _ => None
+      end
+  | _ => Some (a, ts)
+  end.
+Proof. reflexivity. Qed.
+
+Lemma pargs3_S : forall f ts,
+  pargs3 (S f) ts =
+  match pexpr3 f O ts with
+  | Some (e, TComma :: r) =>
+      match pargs3 f r with
+      | Some (es, r') => Some (e :: es, r')
+      | None => None
+      end
+  | Some (e, TRParen :: r) => Some ([e], r)
+  | _ => None
+  end.
+Proof. reflexivity. Qed.
+
+Lemma ploop3_S : forall f p l ts,
+  ploop3 (S f) p l ts =
+  match ts with
+  | TOp o :: r =>
+      if Nat.leb p (prec o) then
+        match pexpr3 f (S (prec o)) r with
+        | Some (b, r') => ploop3 f p (X3Bin o l b) r'
+        | None => None
+        end
+      else Some (l, ts)
+  | _ => Some (l, ts)
+  end.
+Proof. reflexivity. Qed.
+
+Definition mono3_at (n : nat) : Prop :=
+  (forall p ts R, pexpr3 n p ts = Some R -> pexpr3 (S n) p ts = Some R) /\
+  (forall ts R, pprim3 n ts = Some R -> pprim3 (S n) ts = Some R) /\
+  (forall a ts R, psuffix3 n a ts = Some R -> psuffix3 (S n) a ts = Some R) /\
+  (forall ts R, pargs3 n ts = Some R -> pargs3 (S n) ts = Some R) /\
+  (forall p l ts R, ploop3 n p l ts = Some R -> ploop3 (S n) p l ts = Some R).
+
+Lemma mono3_step : forall n, mono3_at n.
+Proof.
+  induction n as [|n IH]; unfold mono3_at.
+  - repeat split; intros; discriminate.
+  - destruct IH as (IHe & IHp & IHs & IHa & IHl). repeat split.
+    + intros p ts R H. rewrite pexpr3_S in H |- *.
+      destruct (pprim3 n ts) as [[l r]|] eqn:E; [|discriminate H].
+      rewrite (IHp _ _ E). apply IHl. exact H.
+    + intros ts R H. rewrite pprim3_S in H |- *.
+      destruct ts as [|t ts]; [discriminate H|].
+      destruct t; try discriminate H; try exact H.
+      * destruct (pexpr3 n 0 ts) as [[e r]|] eqn:E; [|discriminate H].
+        rewrite (IHe _ _ _ E). destruct r as [|[] r']; try discriminate H. apply IHs. exact H.
+      * destruct o; try discriminate H.
+        destruct (pexpr3 n neg_prec ts) as [[e r]|] eqn:E; [|discriminate H].
+        rewrite (IHe _ _ _ E). exact H.
+      * apply IHs. exact H.
+    + intros a ts R H. rewrite psuffix3_S in H |- *.
+      destruct ts as [|t ts]; [exact H|].
+      destruct t; try exact H.
+      * destruct ts as [|[] ts2]; try (apply IHs; exact H);
+          (destruct (pargs3 n _) as [[args r']|] eqn:E; [|discriminate H];
+           rewrite (IHa _ _ E); apply IHs; exact H).
+      * destruct (pexpr3 n 0 ts) as [[i r]|] eqn:E; [|discriminate H].
+        rewrite (IHe _ _ _ E). destruct r as [|[] r']; try discriminate H. apply IHs. exact H.
+      * destruct ts as [|[] ts2]; try exact H; apply IHs; exact H.
+    + intros ts R H. rewrite pargs3_S in H |- *.
+      destruct (pexpr3 n 0 ts) as [[e r]|] eqn:E; [|discriminate H].
+      rewrite (IHe _ _ _ E). destruct r as [|[] r']; try discriminate H; try exact H.
+      destruct (pargs3 n r') as [[es r'']|] eqn:E2; [|discriminate H].
+      rewrite (IHa _ _ E2). exact H.
+    + intros p l ts R H. rewrite ploop3_S in H |- *.
+      destruct ts as [|[] ts']; try exact H.
+      destruct (Nat.leb p (prec o)); [|exact H].
+      destruct (pexpr3 n (S (prec o)) ts') as [[b r']|] eqn:E; [|discriminate H].
+      rewrite (IHe _ _ _ E). apply IHl. exact H.
+Qed.
+
+Lemma pexpr3_mono : forall n m p ts R, (n <= m)%nat -> pexpr3 n p ts = Some R -> pexpr3 m p ts = Some R.
+Proof.
+  intros n m p ts R Hle. induction Hle as [|m Hle IH]; intros H; [exact H|].
+  apply (proj1 (mono3_step m)). apply IH. exact H.
+Qed.
+
+Lemma psuffix3_mono : forall n m a ts R, (n <= m)%nat ->
+  psuffix3 n a ts = Some R -> psuffix3 m a ts = Some R.
+Proof.
+  intros n m a ts R Hle. induction Hle as [|m Hle IH]; intros H; [exact H|].
+  apply (proj1 (proj2 (proj2 (mono3_step m)))). apply IH. exact H.
+Qed.
+
+Lemma ploop3_mono : forall n m p l ts R, (n <= m)%nat ->
+  ploop3 n p l ts = Some R -> ploop3 m p l ts = Some R.
+Proof.
+  intros n m p l ts R Hle. induction Hle as [|m Hle IH]; intros H; [exact H|].
+  apply (proj2 (proj2 (proj2 (proj2 (mono3_step m))))). apply IH. exact H.
+Qed.
+
+Lemma ploop3_pos : forall m p l ts R, ploop3 m p l ts = Some R -> (1 <= m)%nat.
+Proof. intros [|m] p l ts R H; [discriminate H | lia]. Qed.
+
+Lemma psuffix3_pos : forall m a ts R, psuffix3 m a ts = Some R -> (1 <= m)%nat.
+Proof. intros [|m] a ts R H; [discriminate H | lia]. Qed.
+
+(* ---------------------------------------------------------------------------------------------- *)
+(* token sequences of trees *)
+
+Lemma flat3_len : forall t, (1 <= length (flat3 t))%nat.
+Proof.
+  destruct t; simpl; try lia; rewrite app_length; simpl; lia.
+Qed.
+
+Definition not_rparen (ts : list tok) : Prop :=
+  match ts with TRParen :: _ => False | _ => True end.
+
+Lemma flat3_head : forall t r, not_rparen (flat3 t ++ r).
+Proof.
+  induction t; intros r; simpl; try exact I;
+    try (rewrite <- app_assoc; auto; fail).
+  unfold num_tok. destruct (has_dot raw); exact I.
+Qed.
+
+Lemma flat_args_head : forall x xs r, not_rparen (flat_args (x :: xs) ++ r).
+Proof.
+  intros x [|y ys] r.
+  - apply flat3_head.
+  - change (flat_args (x :: y :: ys)) with (flat3 x ++ TComma :: flat_args (y :: ys)).
+    rewrite <- app_assoc. apply flat3_head.
+Qed.
+
+Definition nosuffix (rest : list tok) : Prop :=
+  match rest with TLParen :: _ | TDot :: _ | TLBrack :: _ => False | _ => True end.
+
+Definition nohigher (q : nat) (rest : list tok) : Prop :=
+  match rest with TOp o :: _ => (prec o <= q)%nat | _ => True end.
+
+Lemma psuffix3_stop : forall k a rest, nosuffix rest -> psuffix3 (S k) a rest = Some (a, rest).
+Proof. intros k a [|[] r] H; simpl in H; try contradiction; reflexivity. Qed.
+
+Lemma ploop3_stop : forall k p l rest,
+  match rest with TOp o :: _ => (prec o < p)%nat | _ => True end ->
+  ploop3 (S k) p l rest = Some (l, rest).
+Proof.
+  intros k p l [|[] r] H; try reflexivity.
+  rewrite ploop3_S. destruct (Nat.leb_spec p (prec o)); [lia | reflexivity].
+Qed.
+
+Lemma psuffix3_call : forall f a ts,
+  not_rparen ts ->
+  psuffix3 (S f) a (TLParen :: ts) =
+  match pargs3 f ts with
+  | Some (args, r') => psuffix3 f (X3Call a args) r'
+  | None => None
+  end.
+Proof. intros f a [|[] ts] H; simpl in H; try contradiction; reflexivity. Qed.
+
+(* ---------------------------------------------------------------------------------------------- *)
+(* the parser rebuilds a precedence-stable tree; fuel 3 per token suffices *)
+
+Definition S_stmt (t : e3) : Prop :=
+  forall n m p rest R,
+    (p <= lvl3 t)%nat -> nosuffix rest -> nohigher (lvl3 t) rest ->
+    (m + 3 * length (flat3 t) <= n)%nat ->
+    ploop3 m p t rest = Some R ->
+    pexpr3 n p (flat3 t ++ rest) = Some R.
+
+Definition A_stmt (t : e3) : Prop :=
+  forall n m rest R,
+    (m + 3 * length (flat3 t) <= S n)%nat ->
+    psuffix3 m t rest = Some R ->
+    pprim3 n (flat3 t ++ rest) = Some R.
+
+Definition P_stmt (t : e3) : Prop :=
+  wf3b t = true -> S_stmt t /\ (is_atom t = true -> A_stmt t).
+
+Lemma S_of_prim : forall t,
+  (forall n rest, nosuffix rest -> (3 * length (flat3 t) <= n)%nat ->
+     pprim3 n (flat3 t ++ rest) = Some (t, rest)) ->
+  S_stmt t.
+Proof.
+  intros t Hprim n m p rest R Hp Hns Hnh Hn Hl.
+  pose proof (ploop3_pos _ _ _ _ _ Hl) as Hm.
+  pose proof (flat3_len t) as HL.
+  destruct n as [|n]; [lia|].
+  rewrite pexpr3_S. rewrite (Hprim n rest Hns) by lia.
+  apply ploop3_mono with m; [lia | exact Hl].
+Qed.
+
+Lemma S_of_A : forall t, A_stmt t -> S_stmt t.
+Proof.
+  intros t HA. apply S_of_prim. intros n rest Hns Hn.
+  apply (HA n 1%nat); [lia|]. apply psuffix3_stop. exact Hns.
+Qed.
+
+Lemma S_lit : forall t,
+  (forall f rest, pprim3 (S f) (flat3 t ++ rest) = Some (t, rest)) -> S_stmt t.
+Proof.
+  intros t H. apply S_of_prim. intros n rest _ Hn.
+  pose proof (flat3_len t). destruct n as [|f]; [lia|]. apply H.
+Qed.
+
+Lemma pargs3_flat : forall args,
+  Forall P_stmt args -> forallb wf3b args = true -> args <> [] ->
+  forall n rest, (3 * length (flat_args args) + 2 <= n)%nat ->
+  pargs3 n (flat_args args ++ TRParen :: rest) = Some (args, rest).
+Proof.
+  induction args as [|x args IH]; intros HF Hw Hne n rest Hn; [congruence|].
+  inversion HF as [|x' l' Hx HF']; subst.
+  simpl in Hw. apply andb_true_iff in Hw. destruct Hw as [Hwx Hw].
+  destruct (Hx Hwx) as [HS _].
+  destruct n as [|f]; [lia|]. rewrite pargs3_S.
+  destruct args as [|y ys].
+  - simpl flat_args in *.
+    rewrite (HS f 1%nat 0%nat (TRParen :: rest) (x, TRParen :: rest));
+      [reflexivity | lia | exact I | exact I | lia | reflexivity].
+  - change (flat_args (x :: y :: ys)) with (flat3 x ++ TComma :: flat_args (y :: ys)) in *.
+    rewrite app_length in Hn. cbn [length] in Hn.
+    rewrite <- app_assoc. cbn [app].
+    rewrite (HS f 1%nat 0%nat (TComma :: flat_args (y :: ys) ++ TRParen :: rest)
+               (x, TComma :: flat_args (y :: ys) ++ TRParen :: rest));
+      [| lia | exact I | exact I | lia | reflexivity].
+    rewrite (IH HF' Hw ltac:(discriminate) f rest) by lia.
+    reflexivity.
+Qed.
+
+Lemma parse3_gen : forall t, P_stmt t.
+Proof.
+  induction t using e3_ind'; unfold P_stmt; intros Hw.
+  - split; [|discriminate]. apply S_lit. reflexivity.
+  - split; [|discriminate]. apply S_lit. intros f rest. simpl. unfold num_tok.
+    destruct (has_dot raw); reflexivity.
+  - split; [|discriminate]. apply S_lit. reflexivity.
+  - split; [|discriminate]. apply S_lit. reflexivity.
+  - split; [|discriminate]. apply S_lit. reflexivity.
+  - (* Ref *)
+    assert (HA : A_stmt (X3Ref n)).
+    { intros k m rest R Hk Hs. simpl in *. destruct k as [|f]; [lia|].
+      rewrite pprim3_S. apply psuffix3_mono with m; [lia | exact Hs]. }
+    split; [apply S_of_A; exact HA | intros _; exact HA].
+  - (* Dot *)
+    cbn [wf3b] in Hw. apply andb_true_iff in Hw. destruct Hw as [Ha Hw].
+    destruct (IHt Hw) as [_ HAc]. specialize (HAc Ha).
+    assert (HA : A_stmt (X3Dot t l)).
+    { intros k m rest R Hk Hs. simpl flat3 in *. rewrite app_length in Hk. cbn [length] in Hk.
+      rewrite <- app_assoc. cbn [app].
+      apply (HAc k (S m)); [lia|]. rewrite psuffix3_S.
+      unfold lookup_tok. destruct l as [|c0 l0]; [exact Hs|].
+      destruct (ascii_digit c0); exact Hs. }
+    split; [apply S_of_A; exact HA | intros _; exact HA].
+  - (* Index *)
+    cbn [wf3b] in Hw. apply andb_true_iff in Hw. destruct Hw as [Hw Hwi].
+    apply andb_true_iff in Hw. destruct Hw as [Ha Hwc].
+    destruct (IHt1 Hwc) as [_ HAc]. specialize (HAc Ha).
+    destruct (IHt2 Hwi) as [HSi _].
+    assert (HA : A_stmt (X3Index t1 t2)).
+    { intros k m rest R Hk Hs. simpl flat3 in *.
+      rewrite !app_length in Hk. cbn [length] in Hk. rewrite app_length in Hk. cbn [length] in Hk.
+      norm_app.
+      pose proof (psuffix3_pos _ _ _ _ Hs) as Hm.
+      apply (HAc k (S (m + 1 + 3 * length (flat3 t2)))); [lia|]. rewrite psuffix3_S.
+      rewrite (HSi _ 1%nat 0%nat (TRBrack :: rest) (t2, TRBrack :: rest));
+        [| lia | exact I | exact I | lia | reflexivity].
+      apply psuffix3_mono with m; [lia | exact Hs]. }
+    split; [apply S_of_A; exact HA | intros _; exact HA].
+  - (* Call *)
+    cbn [wf3b] in Hw. apply andb_true_iff in Hw. destruct Hw as [Hw Hwa].
+    apply andb_true_iff in Hw. destruct Hw as [Ha Hwf].
+    destruct (IHt Hwf) as [_ HAf]. specialize (HAf Ha).
+    assert (HA : A_stmt (X3Call t args)).
+    { intros k m rest R Hk Hs. rewrite flat3_call in *.
+      rewrite !app_length in Hk. cbn [length] in Hk. rewrite app_length in Hk. cbn [length] in Hk.
+      norm_app.
+      pose proof (psuffix3_pos _ _ _ _ Hs) as Hm.
+      apply (HAf k (S (m + 3 * length (flat_args args) + 2))); [lia|].
+      destruct args as [|x xs].
+      - simpl flat_args. cbn [app]. rewrite psuffix3_S.
+        apply psuffix3_mono with m; [lia | exact Hs].
+      - rewrite psuffix3_call by apply flat_args_head.
+        rewrite (pargs3_flat (x :: xs) H Hwa ltac:(discriminate)) by lia.
+        apply psuffix3_mono with m; [lia | exact Hs]. }
+    split; [apply S_of_A; exact HA | intros _; exact HA].
+  - (* Paren *)
+    cbn [wf3b] in Hw. destruct (IHt Hw) as [HSe _].
+    assert (HA : A_stmt (X3Paren t)).
+    { intros k m rest R Hk Hs. simpl flat3 in *.
+      cbn [length] in Hk. rewrite app_length in Hk. cbn [length] in Hk.
+      norm_app.
+      pose proof (psuffix3_pos _ _ _ _ Hs) as Hm.
+      destruct k as [|f]; [lia|]. rewrite pprim3_S.
+      rewrite (HSe f 1%nat 0%nat (TRParen :: rest) (t, TRParen :: rest));
+        [| lia | exact I | exact I | lia | reflexivity].
+      apply psuffix3_mono with m; [lia | exact Hs]. }
+    split; [apply S_of_A; exact HA | intros _; exact HA].
+  - (* Neg *)
+    cbn [wf3b] in Hw. apply andb_true_iff in Hw. destruct Hw as [Hlv Hw].
+    apply Nat.leb_le in Hlv.
+    destruct (IHt Hw) as [HSe _].
+    split; [|discriminate]. apply S_of_prim. intros n rest Hns Hn.
+    simpl flat3 in *. cbn [length] in Hn. cbn [app].
+    destruct n as [|f]; [lia|]. rewrite pprim3_S.
+    rewrite (HSe f 1%nat neg_prec rest (t, rest)); [reflexivity | exact Hlv | exact Hns | | lia | ].
+    + destruct rest as [|[] r]; simpl; auto. unfold neg_prec in Hlv. destruct o; simpl; lia.
+    + apply ploop3_stop. destruct rest as [|[] r]; auto. unfold neg_prec. destruct o; simpl; lia.
+  - (* Bin *)
+    cbn [wf3b] in Hw. apply andb_true_iff in Hw. destruct Hw as [Hw Hwb].
+    apply andb_true_iff in Hw. destruct Hw as [Hw Hwa].
+    apply andb_true_iff in Hw. destruct Hw as [Hla Hlb].
+    apply Nat.leb_le in Hla. apply Nat.leb_le in Hlb.
+    destruct (IHt1 Hwa) as [HSa _]. destruct (IHt2 Hwb) as [HSb _].
+    split; [|discriminate].
+    intros n m p rest R Hp Hns Hnh Hn Hl. simpl lvl3 in *. simpl flat3 in *.
+    rewrite app_length in Hn. cbn [length] in Hn.
+    norm_app.
+    pose proof (ploop3_pos _ _ _ _ _ Hl) as Hm.
+    apply (HSa n (S (m + 3 * length (flat3 t2) + 1)) p); [lia | exact I | exact Hla | lia |].
+    rewrite ploop3_S.
+    assert (Ep : Nat.leb p (prec o) = true) by (apply Nat.leb_le; exact Hp).
+    rewrite Ep.
+    rewrite (HSb _ 1%nat (S (prec o)) rest (t2, rest)); [| exact Hlb | exact Hns | | lia | ].
+    + apply ploop3_mono with m; [lia | exact Hl].
+    + destruct rest as [|[] r]; simpl; auto. simpl in Hnh. lia.
+    + apply ploop3_stop. destruct rest as [|[] r]; auto. simpl in Hnh. lia.
+Qed.
+
+Theorem parse3_flat3 : forall t, wf3b t = true -> parse3_toks (flat3 t) = Some t.
+Proof.
+  intros t Hw. destruct (parse3_gen t Hw) as [HS _].
+  unfold parse3_toks.
+  assert (H : pexpr3 (parse_fuel (flat3 t)) 0 (flat3 t ++ []) = Some (t, [])).
+  { apply (HS _ 1%nat 0%nat [] (t, [])); [lia | exact I | exact I | unfold parse_fuel; lia | reflexivity]. }
+  rewrite app_nil_r in H. rewrite H. reflexivity.
+Qed.
+
+Theorem parse3_print3 : forall t, wf3b t = true -> lex_ok t = true -> parse3 (print3 t) = Some t.
+Proof.
+  intros t Hw Hl. unfold parse3. rewrite (lex3_print3 t Hw Hl). apply parse3_flat3. exact Hw.
+Qed.
